@@ -129,3 +129,70 @@ class ds9_coord_dispatch:
         return dict(region_type=rt, param_str=t, frame='fk5' if rt == 'sky' else 'image', index=0, nums=nums)
     post = {'pixel_shifted_sky_degrees': lambda region_type, nums, result:
             (result == nums[0] - 1) if region_type == 'pixel' else (result.to_value('rad') == nums[0] * PI / 180)}
+
+
+# ---------------------------------------------------------------------------------------------------------------------------
+# layering of the metadata that applies to one region line: global < composite < leading sign < the line's own properties
+def _layer(B, name, inc, keys=('color', 'width')):
+    vals = {'color': {'g': 'green', 'c': 'cyan', 'r': 'red'}, 'width': {'g': '1', 'c': '2', 'r': '3'}}
+    maybe = {k: (B.bool(f'{name}.has_{k}'), vals[k][name]) for k in keys}
+    if inc is not None:
+        maybe['include'] = (B.bool(f'{name}.has_include'), inc)
+    return B.dict(name, {}, maybe)
+
+
+def _effective(key, layers):
+    """value of `key` in the first layer (highest priority first) that has it, else None"""
+    for d in layers:
+        if key in d:
+            return d[key]
+    return None
+
+
+def _num(v):
+    return None if v is None else (v if not isinstance(v, str) else int(v))
+
+
+@contract(READ + '_define_raw_metadata', props=['C10', 'C13'])
+class ds9_metadata_layering:
+    """per-region properties override the leading sign, which overrides composite and global properties (DS9 writes include=1 in
+    its own global line: a leading '-' must still exclude); properties are otherwise inherited from the innermost layer that has
+    them; the input dictionaries are left as they are"""
+    cases = {f'g{g}-c{c}-s{s}-r{r}': {'g': g, 'c': c, 's': s, 'r': r} for g in ('0', '1') for c in ('0', '1') for s in (0, 1) for r in ('0', '1')}
+
+    def setup(B, g='1', c='1', s=0, r='1'):
+        return dict(global_meta=_layer(B, 'g', g), composite_meta=_layer(B, 'c', c, ('color',)), include_meta=B.dict('s', {'include': s}),
+                    region_meta=_layer(B, 'r', r, ('color',)))
+    post = {
+        'include': lambda global_meta, composite_meta, include_meta, region_meta, result:
+            result['include'] == _num(_effective('include', (region_meta, include_meta))),
+        'inherited': lambda global_meta, composite_meta, include_meta, region_meta, result:
+            result.get('color') == _effective('color', (region_meta, composite_meta, global_meta))
+            and result.get('width') == _num(_effective('width', (region_meta, composite_meta, global_meta))),
+        'nothing_else': lambda result: all(k in ('include', 'color', 'width') for k in result),
+    }
+
+
+def _parse_two_globals(first, second):
+    from regions.io.ds9.read import _parse_raw_data
+    return _parse_raw_data('global ' + first + '\nglobal ' + second + '\nimage\ncircle(1,2,3)')
+
+
+@contract(READ + '_parse_raw_data', props=['C10'])
+class ds9_successive_global_lines:
+    """successive global lines accumulate and a later line overrides the keys it repeats"""
+    cases = {'override': {'first': 'color=green width=1', 'second': 'color=blue'},
+             'add': {'first': 'color=green', 'second': 'width=4'},
+             'both': {'first': 'color=green width=1 select=1', 'second': 'width=4 color=red'}}
+
+    def setup(B, first='color=green', second='color=blue'):
+        return dict(first=first, second=second)
+    call = lambda first, second: _parse_two_globals(first, second)
+    post = {
+        'one_region': lambda result: len(result) == 1 and result[0].shape == 'circle' and result[0].frame == 'image',
+        'later_global_wins': lambda first, second, result: all(
+            str(result[0].raw_meta.get(kv.split('=')[0])) == kv.split('=')[1] for kv in second.split()),
+        'earlier_global_kept_where_not_repeated': lambda first, second, result: all(
+            str(result[0].raw_meta.get(kv.split('=')[0])) == kv.split('=')[1]
+            for kv in first.split() if kv.split('=')[0] not in [x.split('=')[0] for x in second.split()]),
+    }
